@@ -264,6 +264,113 @@ def _jobs(js):
     return [check_chunk(j) for j in js]
 
 
+def builtin_table():
+    """The four built-in definition files as a CompilerCfg table (mechanical conversion)."""
+    import tomllib
+    table = {}
+    cdir = os.path.join(core.repo_path(), "codebasin", "compilers")
+    for fn in sorted(os.listdir(cdir)):
+        if not fn.endswith(".toml"):
+            continue
+        t = tomllib.load(open(os.path.join(cdir, fn), "rb"))
+        for name, c in t["compiler"].items():
+            def mode(m):
+                return {"defines": m.get("defines", []), "ipaths": m.get("include_paths", []), "ifiles": m.get("include_files", [])}
+            rules = []
+            for r in c.get("parser", []):
+                fmt = r.get("format", "$value")
+                rules.append({"flags": r["flags"], "action": r["action"], "dest": r["dest"], "const": r.get("const", ""),
+                              "prefix": fmt.replace("$value", ""), "hasdef": "default" in r, "default": r.get("default", []),
+                              "override": bool(r.get("override", False)), "sep": r.get("sep", ","), "pattern": r.get("pattern", "")})
+            opts = []
+            for o in c.get("options", []):
+                opts.append({"flag": "-D", "val": o[2:], "parts": [], "matches": []} if o.startswith("-D")
+                            else {"flag": o, "val": "", "parts": [], "matches": []})
+            table[name] = {"alias": c.get("alias_of", ""), "options": opts, "rules": rules,
+                           "modes": {m["name"]: mode(m) for m in c.get("modes", [])},
+                           "passes": {p["name"]: dict(mode(p), modes=p.get("modes", [])) for p in c.get("passes", [])}}
+    return table
+
+
+BUILTIN_FLAGS = {
+    "gcc": ["-fopenmp"], "g++": ["-fopenmp"],
+    "clang": ["-fopenmp", "-fsycl-is-device"], "clang++": ["-fopenmp", "-fsycl-is-device"],
+    "icx": ["-fopenmp", "-fsycl", "-fsycl-targets=spir64", "-fsycl-targets=spir64_gen,spir64_x86_64",
+            "-fsycl-targets=nvptx64-nvidia-cuda"],
+    "icpx": ["-fopenmp", "-fsycl", "-fsycl-targets=spir64_fpga"],
+    "nvcc": ["-fopenmp", "--gpu-architecture=sm_80", "--gpu-code=sm_75,sm_80", "-gencode=arch=compute_70,code=sm_70",
+             "--gpu-architecture=compute_90"],
+}
+
+
+def builtin_check(ctx):
+    """Every documented flag combination of the built-in compilers, judged by CompilerCfg.Parse."""
+    import itertools
+    from codebasin import config
+    table = builtin_table()
+    cmds = []
+    for name, flags in BUILTIN_FLAGS.items():
+        c = table[table[name]["alias"] or name]
+        for r_ in range(len(flags) + 1):
+            for combo in itertools.combinations(flags, r_):
+                argv = [{"flag": "-D", "val": "U=1", "parts": [], "matches": []}]
+                for f in combo:
+                    flag, _, val = f.partition("=")
+                    rule = next((r for r in c["rules"] if flag in r["flags"]), None)
+                    parts = val.split(rule["sep"]) if rule and rule["action"] == "store_split" else []
+                    matches = re.findall(rule["pattern"], val) if rule and rule["action"] == "extend_match" else []
+                    argv.append({"flag": flag, "val": val, "parts": parts, "matches": matches})
+                cmds.append({"name": name, "argv": argv})
+    os.makedirs(core.OUT, exist_ok=True)
+    cf = os.path.join(core.OUT, f"builtin_{os.getpid()}.json")
+    json.dump({"table": table, "cmds": cmds}, open(cf, "w"))
+    try:
+        r = core.tlc("EvalCompilerCfg", "EvalCompilerCfg.cfg", workers=1, timeout=900, env={"CFG_FILE": cf}, tag="builtin")
+    finally:
+        os.unlink(cf)
+    ctx.add_tlc("EvalCompilerCfg (built-in definition files x documented flag combinations)", r)
+    res = {j["idx"]: j["res"] for j in r.json if isinstance(j, dict) and "idx" in j}
+    if len(res) != len(cmds):
+        raise core.MachineryError(f"EvalCompilerCfg judged {len(res)} of {len(cmds)} commands")
+    cwd = os.getcwd()
+    d = tempfile.mkdtemp(prefix="c12b-", dir=ctx.scratch())
+    os.chdir(d)
+    config._compilers = None
+    try:
+        for k, cmd in enumerate(cmds, start=1):
+            argv = []
+            for t in cmd["argv"]:
+                argv += tok_argv(t)
+            exp = res[k]
+            ctx.cov["evaluations"] += 1
+            try:
+                got = config.ArgumentParser(cmd["name"]).parse_args(list(argv))
+            except Exception as e:  # noqa
+                ctx.fail("G", ["builtin", "exception"], f"exception:{type(e).__name__}", f"{cmd['name']} {argv}: {e}", cmd)
+                continue
+            gotd = {c.pass_name: c for c in got}
+            wantd = {c["pass"]: c for c in exp["configs"]}
+            bad = None
+            if set(gotd) != set(wantd):
+                bad = f"passes {sorted(gotd)} expected {sorted(wantd)}"
+            else:
+                mt = table[table[cmd["name"]]["alias"] or cmd["name"]]["modes"]
+                for pn, w in wantd.items():
+                    extra = collections.Counter()
+                    for mn in w["modes"]:
+                        extra.update(mt[mn]["defines"])
+                    g = gotd[pn]
+                    if list(g.defines[:len(w["defines"])]) != w["defines"] or collections.Counter(g.defines[len(w["defines"]):]) != extra:
+                        bad = f"pass {pn} defines {g.defines} expected {w['defines']} + modes {dict(extra)}"
+                        break
+            if bad:
+                ctx.fail("G", ["builtin"], "builtin-configuration-differs", f"{cmd['name']} {argv}: {bad}", cmd)
+    finally:
+        os.chdir(cwd)
+        config._compilers = None
+    ctx.cov["builtin_commands"] = len(cmds)
+
+
 def run(ctx):
     q = ctx.quick
     os.makedirs(core.OUT, exist_ok=True)
@@ -301,6 +408,7 @@ def run(ctx):
     ctx.sample({"table": {n: (c["alias"] or [r["flags"][0] for r in c["rules"]]) for n, c in c0["table"].items()},
                 "history": [(h["name"], [tok_argv(t) for t in h["argv"]]) for h in c0["hist"]],
                 "expected_passes": [[c["pass"] for c in e["configs"]] for e in c0["expect"]]})
+    builtin_check(ctx)
     work = ctx.scratch()
     jobs = [(c, work) for c in runner.chunks(allc, runner.NCPU * 2)]
     for lst in runner.pmap(_jobs, jobs, chunk=1):
